@@ -413,90 +413,238 @@ theorem chainAux_ok (fs : Fs) (remote : List Char) (hp : localParts remote ≠ [
         · exact absurd hr.symm hs
         · exact Or.inr hr
 
+/-! ### the final joined path -/
+
+theorem regular_noSlash {n : Name} (h : Regular n) : ∀ c ∈ n, c ≠ '/' := by
+  intro c hc h0
+  have := h.2.2.2 c hc
+  subst h0
+  revert this
+  decide
+
+theorem osJoin_regular (a : List Char) (b : Name) (hb : Regular b) (ha : a.getLast? ≠ some '/') :
+    osJoin a b = some (a ++ '/' :: b) := by
+  unfold osJoin
+  have h1 : b.head? ≠ some '/' := by
+    intro h0
+    obtain ⟨ys, hys⟩ := List.head?_eq_some_iff.mp h0
+    exact regular_noSlash hb '/' (by rw [hys]; simp) rfl
+  simp [h1, ha]
+
+theorem getLast?_snoc_regular (a : List Char) (b : Name) (hb : Regular b) :
+    (a ++ '/' :: b).getLast? ≠ some '/' := by
+  intro h0
+  have hne : b ≠ [] := hb.1
+  have : (a ++ '/' :: b).getLast? = b.getLast? := by
+    rw [List.getLast?_append]
+    cases hg : b.getLast? with
+    | none => exact absurd (List.getLast?_eq_none_iff.mp hg) hne
+    | some v => simp
+  rw [this] at h0
+  exact regular_noSlash hb '/' (List.mem_of_getLast? h0) rfl
+
+theorem joinAll_regular (cs : List Name) : ∀ (a : List Char), (∀ c ∈ cs, Regular c) →
+    a.getLast? ≠ some '/' → joinAll a cs = some (a ++ (cs.map ('/' :: ·)).flatten) := by
+  induction cs with
+  | nil => intro a _ _; simp [joinAll]
+  | cons c cs ih =>
+    intro a h ha
+    have hc := h c (by simp)
+    simp only [joinAll, osJoin_regular a c hc ha]
+    rw [ih (a ++ '/' :: c) (fun x hx => h x (by simp [hx])) (getLast?_snoc_regular a c hc)]
+    simp
+
+theorem splitSlash_noSlash (p : List Char) : ∀ (cur rest : List Char), (∀ c ∈ p, c ≠ '/') →
+    splitSlash (p ++ rest) cur = splitSlash rest (p.reverse ++ cur) := by
+  induction p with
+  | nil => intro cur rest _; simp
+  | cons x p ih =>
+    intro cur rest h
+    have hx : x ≠ '/' := h x (by simp)
+    simp only [List.cons_append, splitSlash, hx, if_false]
+    rw [ih (x :: cur) rest (fun c hc => h c (by simp [hc]))]
+    simp
+
+theorem splitSlash_flatten (cs : List Name) : ∀ (cur : List Char), (∀ c ∈ cs, ∀ x ∈ c, x ≠ '/') →
+    splitSlash ((cs.map ('/' :: ·)).flatten) cur = cur.reverse :: cs := by
+  induction cs with
+  | nil => intro cur _; simp [splitSlash]
+  | cons c cs ih =>
+    intro cur h
+    simp only [List.map_cons, List.flatten_cons, List.cons_append, splitSlash, if_true]
+    rw [splitSlash_noSlash c [] _ (h c (by simp)), ih _ (fun x hx => h x (by simp [hx]))]
+    simp
+
+theorem walkUp_regular (cs : List Name) : ∀ (st : List Name), (∀ c ∈ cs, Regular c) →
+    walkUp cs st = some (st.reverse ++ cs) := by
+  induction cs with
+  | nil => intro st _; simp [walkUp]
+  | cons c cs ih =>
+    intro st h
+    have hc := h c (by simp)
+    have h1 : ¬ (c = [] ∨ c = dot) := by
+      rintro (h0 | h0)
+      · exact hc.1 h0
+      · exact hc.2.1 h0
+    simp only [walkUp, h1, hc.2.2.1, if_false]
+    rw [ih (c :: st) (fun x hx => h x (by simp [hx]))]
+    simp
+
+/-- the string handed to the operating system for regular components, and where it leads -/
+theorem finalPath_regular (cs : List Name) (h : ∀ c ∈ cs, Regular c) :
+    joinAll [] cs = some ((cs.map ('/' :: ·)).flatten) ∧
+    resolve ((cs.map ('/' :: ·)).flatten) = some cs := by
+  refine ⟨by simpa using joinAll_regular cs [] h (by simp), ?_⟩
+  unfold resolve
+  rw [splitSlash_flatten cs [] (fun c hc => regular_noSlash (h c hc))]
+  simp only [List.reverse_nil, walkUp, true_or, if_true]
+  simpa using walkUp_regular cs [] h
+
 /-! ### claiming -/
 
-theorem mkdirs_mono (cs : List Name) : ∀ (fs fs' : Fs) (base : Path), mkdirs fs base cs = some fs' →
-    ∀ e ∈ fs, e ∈ fs' := by
+theorem mkdirs_mono (cs : List Name) : ∀ (fs : Fs) (base : Path), ∀ e ∈ fs, e ∈ (mkdirs fs base cs).1 := by
   induction cs with
-  | nil => intro fs fs' base h e he; simp only [mkdirs] at h; cases h; exact he
+  | nil => intro fs base e he; simpa [mkdirs] using he
   | cons c cs ih =>
-    intro fs fs' base h e he
-    simp only [mkdirs] at h
-    split at h
-    · split at h
-      · exact ih _ _ _ h e he
-      · cases h
-    · exact ih _ _ _ h e (by simp [he])
+    intro fs base e he
+    simp only [mkdirs]
+    split
+    · split
+      · exact ih _ _ e he
+      · exact he
+    · split
+      · exact he
+      · exact ih _ _ e (by simp [he])
 
-theorem claim_spec (fs fs' : Fs) (d : Path) (n : Name) (h : claim fs d n = some fs') :
-    (∀ e ∈ fs, e ∈ fs') ∧ fs'.has d n = true := by
-  unfold claim at h
-  split at h
-  · cases h
-  · rename_i fs1 h1
-    have hm := mkdirs_mono d fs fs1 [] h1
-    split at h
-    · rename_i e he
-      split at h
-      · cases h
-      · cases h
-        refine ⟨hm, ?_⟩
-        have := List.find?_some he
-        have hmem := List.mem_of_find?_eq_some he
-        unfold Fs.has
-        rw [List.any_eq_true]
-        exact ⟨e, hmem, this⟩
-    · cases h
-      refine ⟨fun e he => by simp [hm e he], ?_⟩
-      simp [Fs.has]
+theorem claim_mono (fs : Fs) (d : Path) (n : Name) (fault : Fault) : ∀ e ∈ fs, e ∈ (claim fs d n fault).1 := by
+  intro e he
+  unfold claim
+  split
+  · exact he
+  · have hm := mkdirs_mono d fs [] e he
+    split
+    · rename_i fs' heq; rw [heq] at hm; exact hm
+    · rename_i fs' heq
+      rw [heq] at hm
+      split
+      · exact hm
+      · split
+        · exact hm
+        · split
+          · exact hm
+          · simp [hm]
 
-/-- every active download holds a regular name that exists in the directory -/
+theorem claim_spec (fs : Fs) (d : Path) (n : Name) (fault : Fault) (h : (claim fs d n fault).2 = true) :
+    (claim fs d n fault).1.has d n = true := by
+  unfold claim at h ⊢
+  by_cases hmk : fault = .makedirs
+  · simp [hmk] at h
+  · simp only [hmk, if_false] at h ⊢
+    rcases hm : mkdirs fs [] d with ⟨fs', b⟩
+    rw [hm] at h
+    cases b with
+    | false => simp at h
+    | true =>
+      simp only at h ⊢
+      by_cases hop : fault = .open
+      · simp [hop] at h
+      · simp only [hop, if_false] at h ⊢
+        cases hf : fs'.find? (fun e => e.dir == d && e.name == n) with
+        | some e =>
+          simp only
+          have := List.find?_some hf
+          have hmem := List.mem_of_find?_eq_some hf
+          unfold Fs.has
+          rw [List.any_eq_true]
+          exact ⟨_, hmem, this⟩
+        | none =>
+          rw [hf] at h
+          simp only at h ⊢
+          by_cases hl : tooLong n = true
+          · simp [hl] at h
+          · simp [hl, Fs.has]
+
+theorem has_mono (fs fs' : Fs) (d : Path) (n : Name) (hm : ∀ e ∈ fs, e ∈ fs') (h : fs.has d n = true) :
+    fs'.has d n = true := by
+  unfold Fs.has at h ⊢
+  rw [List.any_eq_true] at h ⊢
+  obtain ⟨e, he, hp⟩ := h
+  exact ⟨e, hm e he, hp⟩
+
+/-- every download that holds a path holds a regular path that exists in the directory, and no two
+of them hold the same one -/
 def SysInv (s : Sys) : Prop :=
-  (∀ a ∈ s.active, Regular a.name ∧ s.fs.has a.dir a.name = true) ∧
-  s.active.Pairwise (fun a b => (a.dir, a.name) ≠ (b.dir, b.name))
+  (∀ a ∈ s.dls, Regular a.name ∧ (∀ c ∈ a.dir, Regular c) ∧ s.fs.has a.dir a.name = true) ∧
+  s.dls.Pairwise (fun a b => (a.dir, a.name) ≠ (b.dir, b.name))
+
+theorem setStatus_inv (fs : Fs) (dls : List Dl) (id : Nat) (o n : Status) (h : SysInv ⟨fs, dls⟩) :
+    SysInv ⟨fs, setStatus id o n dls⟩ := by
+  refine ⟨?_, ?_⟩
+  · intro a ha
+    simp only [setStatus, List.mem_map] at ha
+    obtain ⟨b, hb, rfl⟩ := ha
+    have := h.1 b hb
+    split <;> exact this
+  · unfold setStatus
+    apply List.Pairwise.map _ _ h.2
+    intro a b hab
+    split <;> split <;> exact hab
+
+theorem choose_inv (ss : List Strategy) (hl : ss.getLast? = some .number) (fs : Fs) (rest : List Dl)
+    (id : Nat) (remote : List Char) (fault : Fault) (hinv : SysInv ⟨fs, rest⟩) :
+    SysInv (chooseAndClaim ss fs rest id remote fault).1 := by
+  unfold chooseAndClaim
+  split
+  · exact hinv
+  · rename_i d n hch
+    obtain ⟨haux, hdreg, hreg⟩ := chain_ok fs ss remote d n hch
+    have hfresh := chainAux_fresh fs remote ss _ _ inv_init hl haux
+    simp only at hfresh
+    rw [pathExists_regular _ _ _ hreg] at hfresh
+    have hmono := claim_mono fs d n fault
+    split
+    · rename_i fs' heq
+      have hm : ∀ e ∈ fs, e ∈ fs' := by intro e he; have := hmono e he; rw [heq] at this; exact this
+      refine ⟨?_, hinv.2⟩
+      intro a ha
+      have := hinv.1 a ha
+      exact ⟨this.1, this.2.1, has_mono fs fs' _ _ hm this.2.2⟩
+    · rename_i fs' heq
+      have hm : ∀ e ∈ fs, e ∈ fs' := by intro e he; have := hmono e he; rw [heq] at this; exact this
+      have hhas : fs'.has d n = true := by
+        have := claim_spec fs d n fault (by rw [heq])
+        rw [heq] at this; exact this
+      refine ⟨?_, ?_⟩
+      · intro a ha
+        simp only [List.mem_cons] at ha
+        rcases ha with rfl | ha
+        · exact ⟨hreg, hdreg, hhas⟩
+        · have := hinv.1 a ha
+          exact ⟨this.1, this.2.1, has_mono fs fs' _ _ hm this.2.2⟩
+      · simp only [List.pairwise_cons]
+        refine ⟨?_, hinv.2⟩
+        intro a ha heq2
+        have h2 := (hinv.1 a ha).2.2
+        simp only [Prod.mk.injEq] at heq2
+        rw [← heq2.1, ← heq2.2, hfresh] at h2
+        cases h2
+
+theorem drop_inv (s : Sys) (id : Nat) (h : SysInv s) : SysInv ⟨s.fs, s.drop id⟩ :=
+  ⟨fun a ha => h.1 a (List.mem_filter.mp ha).1, h.2.sublist List.filter_sublist⟩
 
 theorem step_inv (ss : List Strategy) (hl : ss.getLast? = some .number) (s : Sys) (op : Op)
     (hinv : SysInv s) : SysInv (step ss s op).1 := by
   cases op with
-  | start id remote =>
+  | start id remote fault =>
     simp only [step]
     split
-    · exact hinv
     · split
       · exact hinv
-      · rename_i d n hch
-        split
-        · exact hinv
-        · rename_i fs' hcl
-          obtain ⟨haux, _, hreg⟩ := chain_ok s.fs ss remote d n hch
-          have hfresh := chainAux_fresh s.fs remote ss _ _ inv_init hl haux
-          simp only at hfresh
-          rw [pathExists_regular _ _ _ hreg] at hfresh
-          obtain ⟨hmono, hhas⟩ := claim_spec s.fs fs' d n hcl
-          refine ⟨?_, ?_⟩
-          · intro a ha
-            simp only [List.mem_cons] at ha
-            rcases ha with rfl | ha
-            · exact ⟨hreg, hhas⟩
-            · refine ⟨(hinv.1 a ha).1, ?_⟩
-              have h2 := (hinv.1 a ha).2
-              unfold Fs.has at h2 ⊢
-              rw [List.any_eq_true] at h2 ⊢
-              obtain ⟨e, he, hp⟩ := h2
-              exact ⟨e, hmono e he, hp⟩
-          · simp only [List.pairwise_cons]
-            refine ⟨?_, hinv.2⟩
-            intro a ha heq
-            have h2 := (hinv.1 a ha).2
-            simp only [Prod.mk.injEq] at heq
-            rw [← heq.1, ← heq.2, hfresh] at h2
-            cases h2
-  | finish id =>
-    simp only [step]
-    refine ⟨?_, ?_⟩
-    · intro a ha
-      exact hinv.1 a (List.mem_filter.mp ha).1
-    · exact hinv.2.sublist List.filter_sublist
+      · exact setStatus_inv s.fs s.dls id _ _ hinv
+      · exact choose_inv ss hl s.fs (s.drop id) id remote fault (drop_inv s id hinv)
+    · exact choose_inv ss hl s.fs s.dls id remote fault hinv
+  | finish id => exact setStatus_inv s.fs s.dls id _ _ hinv
+  | cut id => exact setStatus_inv s.fs s.dls id _ _ hinv
 
 theorem run_inv (ss : List Strategy) (hl : ss.getLast? = some .number) (ops : List Op) :
     ∀ s, SysInv s → SysInv (run ss s ops) := by
